@@ -154,7 +154,7 @@ def main(tier):
     budget = 60 if tier == 'quick' else 900
     from symx.common import run_instances
     kres = run_instances(run_instance, [('prune_stopped', n, k, W) for n in (2, 3) for k in (1, 2) for W in range(1, n + 1)])
-    res = list(kres) + gabs.run_all(rep, run_instance, instances(tier), budget, 16 * (100 if tier == 'quick' else 1500))
+    res = list(kres) + gabs.run_all(rep, run_instance, instances(tier), budget, 16 * (100 if tier == 'quick' else 900))
     rep.bounds = dict(graphs="oneway2, line2, oneway3, oneway4, k3 (node states)" if tier == 'quick' else "all digraphs <=3 nodes/<=4 edges, fork, oneway4",
                       T="1..3", config="max_dist (+max_dist_init) or min_prob_norm symbolic so that stopped candidates exist; three families; non-emitting on/off; width 1")
     rep.outside = ["log output itself", "rounding", "graphs/traces beyond the bound"]
